@@ -155,6 +155,11 @@ def run(ctx):
                     g = tg[3][0]
                     if g[0] == "call" and g[1] == GETRES_ and len(g[2]) == 1 and res(g[2][0], d + 1) == res(z[2][0], d + 1):
                         return res(z[2][0], d + 1)
+            if y[0] == "elem" and y[1][0] in ("payload", "call") and d < 30:
+                # an element of a vector collected from a sequence is that sequence's item at the same position
+                r_ = seq_nth(ft, y[1])
+                if r_ is not None and r_[0] is not None and not (r_[0][0] == "elem" and strip_site(r_[0][1]) == strip_site(y[1])):
+                    return res(subst_terms(r_[0], {KSYM: y[2]}), d + 1)
             if y[0] == "elem":
                 k2 = local_key_of(y[1])
                 co, kk = linear(y[2])
